@@ -173,7 +173,7 @@ func inLedgerPkg(w *World, fn *ssa.Function) bool {
 }
 
 func checkC06(w *World, r *Report) {
-	r.Explanation = "Structural clause of C06: with every program point of every module function reachable from an ABCI entry labelled T (consensus), F (CheckTx), Q (Query) or ⊤ (shared) — from the entry it is reached from, refined by dominating tests of the exec flag (TrxContext.Exec, StateDBWrapper.exec, bool parameters that receive it) — (X-1a) every consensus-overlay ledger method on a live ledger is called at a T point and (X-1b) every mempool-overlay method at an F point, including both arms of the `fn := L.Get; if exec { fn = L.GetFinality }` idiom which must name the same ledger; (X-1c) every argument bound to a parameter that receives the exec flag, and every store to TrxContext.Exec / StateDBWrapper.exec, is the flag itself or a constant that agrees with the context of the call; (X-2) no in-memory controller state is written at a point that is not T (the query's scratch StateDBWrapper excepted); (X-3) every success return of FinalityLedger.Commit resets the mempool overlay; (X-4) the live EVM state is touched only at T points; (X-5) inside the ledger package, mempool-overlay operations never change what the consensus overlay reads or what a commit writes, and a commit discards the mempool overlay (the abstract interpretation of C18 L-1)."
+	r.Explanation = "Structural clause of C06: with every program point of every module function reachable from an ABCI entry labelled T (consensus), F (CheckTx), Q (Query) or ⊤ (shared) — from the entry it is reached from, refined by dominating tests of the exec flag (TrxContext.Exec, StateDBWrapper.exec, bool parameters that receive it) — (X-1a) every consensus-overlay ledger method on a live ledger is called at a T point and (X-1b) every mempool-overlay method at an F point, including both arms of the `fn := L.Get; if exec { fn = L.GetFinality }` idiom which must name the same ledger; (X-1c) every argument bound to a parameter that receives the exec flag, and every store to TrxContext.Exec / StateDBWrapper.exec, is the flag itself or a constant that agrees with the context of the call; (X-2) no in-memory controller state is written at a point that is not T (the query's scratch StateDBWrapper excepted); (X-3) every success return of FinalityLedger.Commit resets the mempool overlay; (X-4) the live EVM state is touched only at T points; (X-5) inside the ledger package, mempool-overlay operations never change what the consensus overlay reads or what a commit writes, and a commit discards the mempool overlay (the abstract interpretation of C18 L-1). (X-7) the readers of the committed tree that block execution iterates with consult no overlay container (C18 L-2): the plain ledger's overlay is fed by CheckTx."
 	r.NotCovered = "interleavings below ABCI-call granularity (Query takes no application mutex); equality of results as such; internals of iavl/go-ethereum caches."
 
 	x := NewExecCtx(w)
